@@ -272,7 +272,7 @@ def replace_node(graph, node, replacement_graph: ProxyGraph, parser: Parser):
     :returns: Returns a new graph with ``node`` replace by
         ``replacement_graph``.
     """
-    idx_offset = len(graph.nodes)
+    idx_offset = max(graph.nodes, default=-1) + 1
     h = parser.parse(replacement_graph.pattern, idx_offset=idx_offset)
     graph = nx.compose(graph, h)
     if len(h.nodes) > 0:
